@@ -85,6 +85,10 @@ def namesStep : List String → String
     match parseMsg name rest ⟨ofAscii name, [], [], [], []⟩ with
     | some m => if validMsg m then showMsg m else "bad-op"
     | none => "bad-op"
+  | "methods" :: name :: rest =>
+    match parseMsg name rest ⟨ofAscii name, [], [], [], []⟩ with
+    | some m => if validMsg m then " ".intercalate ((opaqueMethods m).map showStr) else "bad-op"
+    | none => "bad-op"
   | _ => "bad-op"
 
 def main : IO Unit := Driver.run namesStep
